@@ -68,6 +68,21 @@ static inline void build_cell_content(Built& B, Cell* cell, const J& c) {
             const J& el = e["ellipse"];
             *p = ellipse(Q.u2(el["c"]), Q.u(el["r"].i()), Q.u(el["r"].i()), 0, 0, 0, 0,
                          Q.u(4 * el["tol"].i()) / 100.0, p->tag);
+            if (el.has("seg")) {
+                // keep only the vertices on the arc a0..a1 (degrees): a circular segment closed by a
+                // chord; every vertex lies on the circle but the polygon is no circle
+                double a0 = (double)el["seg"][(size_t)0].i(), a1 = (double)el["seg"][(size_t)1].i();
+                Vec2 c = Q.u2(el["c"]);
+                Array<Vec2> keep = {};
+                for (uint64_t k = 0; k < p->point_array.count; k++) {
+                    Vec2 d = p->point_array[k] - c;
+                    double a = atan2(d.y, d.x) * 180.0 / M_PI;
+                    if (a < 0) a += 360;
+                    if (a >= a0 && a <= a1) keep.append(p->point_array[k]);
+                }
+                p->point_array.clear();
+                p->point_array = keep;
+            }
         }
         set_repetition(p->repetition, e["rep"], Q);
         build_props(p->properties, e["props"]);
